@@ -7,6 +7,8 @@ from contracts.container_oracle import close
 
 water = Substance.liquid('water', 18.0153, 1)
 salt = Substance.solid('salt', 58.44)
+zinc = Substance.solid('zinc sulfate', 161)
+amm = Substance.solid('ammonium chloride', 53)      # deliberately not in alphabetical order in the solute list
 
 
 def contents(o):
@@ -40,7 +42,17 @@ def scenario(kind):
     step('transfer', 'A', 'P', '100 uL')
     step('transfer', 'B', 'Q', '50 uL')
     sl = lambda p: (p, (1, 1))        # noqa: E731
-    if op == 'transfer':
+    sub = lambda p: (p, (slice(1, 2), slice(1, 2)), (slice(0, 1), slice(1, 2)))      # noqa: E731  a slice of a slice: well A,2
+    if var == 'sub-slice':
+        if op == 'transfer':
+            step('transfer', sub('P'), 'B', '10 uL')
+        else:
+            step('remove', sub('P'))
+    elif op == 'solution' and var == 'two-solutes':
+        step('solution2', 'N')
+    elif op == 'dilute' and var == 'rename':
+        step('dilute', 'A', 'R')
+    elif op == 'transfer':
         pairs = {'cc': ('A', 'B'), 'cp': ('A', 'P'), 'cs': ('A', sl('P')), 'pc': ('P', 'B'), 'sc': (sl('P'), 'B'),
                  'ss': (sl('P'), ('Q', (1, 2))), 'ps': ('P', ('Q', (slice(None), slice(None)))),
                  'same-plate': (sl('P'), ('P', (1, 2)))}[var]
@@ -65,7 +77,10 @@ def scenario(kind):
 
 def resolve(env, ref):
     if isinstance(ref, tuple):
-        return env[ref[0]][ref[1]]
+        o = env[ref[0]]
+        for item in ref[1:]:
+            o = o[item]
+        return o
     return env[ref]
 
 
@@ -85,25 +100,43 @@ def replay(kind, clause):
             if n and n not in names and n in ('A', 'B', 'P', 'Q'):
                 names.add(n)
     r.uses(*[env[n] for n in sorted(names)])
+    declared0 = {n: contents(env[n]) for n in names}
+    held = []
+
+    def rresolve(en, ref):       # recipe side: remember the slice objects the caller hands in
+        o = resolve(en, ref)
+        if hasattr(o, 'plate'):
+            held.append((o, o.plate, None))
+        return o
     for st in prog:
         if st[0] == 'transfer':
-            r.transfer(resolve(renv, st[1]), resolve(renv, st[2]), st[3])
+            r.transfer(rresolve(renv, st[1]), rresolve(renv, st[2]), st[3])
         elif st[0] == 'create_container':
             renv['N'] = r.create_container('N', st[2], st[3])
+        elif st[0] == 'solution2':
+            renv['N'] = r.create_solution([zinc, amm], water, 'N', concentration=['1 M', '2 M'], total_quantity='10 mL')
         elif st[0] == 'solution':
             renv['N'] = r.create_solution(salt, renv[st[2]] if st[2] else water, 'N', concentration='0.5 M', total_quantity='0.5 mL')
         elif st[0] == 'solution_from':
             renv['N'] = r.create_solution_from(renv['A'], salt, '0.1 M', water, '5 mL', 'N')
         elif st[0] == 'remove':
-            r.remove(resolve(renv, st[1]), water)
+            r.remove(rresolve(renv, st[1]), water)
         elif st[0] == 'dilute':
-            r.dilute(renv['A'], salt, '0.25 M', water)
+            r.dilute(renv['A'], salt, '0.25 M', water, *st[2:])
         elif st[0] == 'fill_to':
-            r.fill_to(resolve(renv, st[1]), water, st[2])
+            r.fill_to(rresolve(renv, st[1]), water, st[2])
     try:
         baked = r.bake()
     except Exception as e:
         return {'ok': False, 'observed': f'bake raised {e!r}', 'expected': 'bake = eager fold'}
+    # ---- C04: what the caller handed in is untouched by declaring, adding steps and baking
+    frame_fails = []
+    for n in names:
+        if contents(env[n]) != declared0[n]:
+            frame_fails.append(f"declared object {n} was modified by the recipe")
+    for sl_, pl_, well_ in held:
+        if sl_.plate is not pl_:
+            frame_fails.append("a slice object handed to the recipe was re-pointed at another plate")
     # ---- eager fold
     e = dict(env)
     ledger = []
@@ -116,6 +149,8 @@ def replay(kind, clause):
             e[name_of(st[2])] = b
         elif st[0] == 'create_container':
             e['N'] = Container('N', st[2], st[3])
+        elif st[0] == 'solution2':
+            e['N'] = Container.create_solution([zinc, amm], water, 'N', concentration=['1 M', '2 M'], total_quantity='10 mL')
         elif st[0] == 'solution':
             if st[2]:
                 e[st[2]], e['N'] = Container.create_solution(salt, e[st[2]], 'N', concentration='0.5 M', total_quantity='0.5 mL')
@@ -126,11 +161,11 @@ def replay(kind, clause):
         elif st[0] == 'remove':
             e[name_of(st[1])] = resolve(e, st[1]).remove(water)
         elif st[0] == 'dilute':
-            e['A'] = e['A'].dilute(salt, '0.25 M', water)
+            e['A'] = e['A'].dilute(salt, '0.25 M', water, *st[2:])     # a renamed result stays filed under the operand's name
         elif st[0] == 'fill_to':
             e[name_of(st[1])] = resolve(e, st[1]).fill_to(water, st[2])
         ledger.append((before, {k: contents(v) for k, v in e.items() if k in names or k == 'N'}))
-    fails = []
+    fails = list(frame_fails) if 'frame' in clause else []
     want_names = {k for k in e if k in names or (k == 'N' and 'N' in renv)}
     if set(baked) != want_names:
         fails.append(f"bake returned the names {sorted(baked)}, expected {sorted(want_names)}")
